@@ -228,7 +228,11 @@ Proof.
   - discriminate.
   - destruct (Z_lt_le_dec n 0) as [Hn|Hn].
     + unfold rep_im. replace (n <? 0) with true by (symmetry; apply Z.ltb_lt; lia). discriminate.
-    + destruct (rep_correct_nonneg s n sep Hs H H0 Hn) as [A B].
-      destruct (Z_lt_le_dec (rep_len s n sep) (2^63)) as [L|L]; [rewrite A by exact L|rewrite B by exact L]; discriminate.
+    + destruct (rep_correct_nonneg s n sep Hs H H0 Hn) as (A & B & C).
+      destruct (Z_lt_le_dec (rep_len s n sep) (2^63)) as [L|L]; [|rewrite C by exact L; discriminate].
+      destruct (Z_le_gt_dec (rep_len s n sep) maxRepSize) as [M|M]; [rewrite A by (right; exact M); discriminate|].
+      destruct (Z_le_gt_dec 2 n) as [N|N]; [rewrite B by lia; discriminate|].
+      destruct (Z.eq_dec n 1) as [->|N1]; [rewrite A by (left; reflexivity); discriminate|].
+      assert (n = 0) by lia. subst n. vm_compute. discriminate.
   - rewrite find_plain_correct by assumption. discriminate.
 Qed.
